@@ -146,7 +146,12 @@ func modules() []*module {
 				e, n := ptrElems(v)
 				return e, n, true
 			},
-			valid:   func(r interface{}) bool { return cb.IsValidRule(r.(*cb.Rule)) == nil },
+			valid: func(r interface{}) bool {
+				x := r.(*cb.Rule)
+				// a rule whose strategy has no generator is valid but served by no breaker, hence not in force
+				supported := x.Strategy == cb.SlowRequestRatio || x.Strategy == cb.ErrorRatio || x.Strategy == cb.ErrorCount || int(x.Strategy) == faultStrategy
+				return cb.IsValidRule(x) == nil && supported
+			},
 			genRule: genBreaker, fault: true},
 		{name: "hotspot", parser: datasource.HotSpotParamRuleJsonArrayParser, updater: datasource.HotSpotParamRulesUpdater,
 			clear: hotspot.ClearRules, inForce: func() []interface{} { return toIfaces(hotspot.GetRules()) },
